@@ -258,6 +258,33 @@ def run(ctx):
     ereals = SC.run_scripts(ctx, "effect-session", eff)
     for s, r in zip(eff, ereals):
         _C10.oracle(ctx, s, r, _gi)
+    # the documented effect of SETFH is on the tuning in every frame: after 'RSP SETFH 0' the transceiver resolves its Rx / Tx frequency
+    # through the list the command carried - ALL of its 1..64 channels, by TS 45.002 6.2.3 (independent transcription shared with C07)
+    from . import C07 as _C07
+    nfh = 0
+    for n, hsn in [(n, h) for n in ([1, 2, 3, 31, 32, 33, 62, 63, 64] if ctx.tier == "quick" else list(range(1, 65))) for h in (0, 37, rng.range(1, 63))]:
+        maio = rng.below(n)
+        pairs = [(935000 + 200 * k, 890000 + 200 * k) for k in range(n)]
+        rng.shuffle(pairs)
+        sess = Session()
+        text = "CMD SETFH %d %d %s" % (hsn, maio, " ".join("%d %d" % p for p in pairs))
+        o, exc = sess.ctrl(0, W.cmd(text))
+        rsp = bytes(o[3:]).decode("latin-1") if o and len(o) > 3 else ""
+        if exc or not rsp.startswith("RSP SETFH 0 "):
+            ctx.oracle_fail("SETFH with %d channels is not accepted" % n, dict(command=text[:80], reply=rsp[:80], exception=exc), key="c05-setfh-refused")
+            continue
+        t = sess.trxs[0]
+        for fn in [0, 1, 50, 51, 1325, 1326, 2715647] + [rng.below(2715648) for _ in range(40)]:
+            k = _C07.spec_mai(hsn, maio, n, fn)
+            got = (t.get_rx_freq(fn), t.get_tx_freq(fn))
+            nfh += 1
+            if got != (pairs[k][0] * 1000, pairs[k][1] * 1000) and got != pairs[k]:
+                ctx.oracle_fail("after an accepted SETFH the transceiver is not tuned to the channel TS 45.002 selects from the list the command carried",
+                                dict(hsn=hsn, maio=maio, channels=n, fn=fn, mai=k, command=text[:60] + "..."), key="c05-setfh-effect",
+                                expected=list(pairs[k]), observed=list(got))
+                break
+    ctx.count("setfh_effect_frames", nfh)
+    ctx.evaluations += nfh
     trxcon_end_to_end(ctx, rng)
     ctx.sample([SC.describe(o) for o in scripts[0][1][1:12]])
     ctx.count("commands", sum(1 for s in scripts for o in s[1] if o[0] == "ctrl"))
